@@ -400,7 +400,7 @@ func (x *runner) step(o op, idx int) {
 		}
 	}
 	const notKilled = "the operation returned although it takes the context to its hard limit (or requests a kill): the context must be terminated"
-	if top.ByCall && o.k != opPush {
+	if top.ByCall && o.k != opPush && o.k != opRel {
 		// inside f of a CallContext: a termination must travel to that CallContext
 		got = x.exec(o)
 		if exp == cm.MustKill {
